@@ -1,7 +1,7 @@
 /- C42 driver:
    `C42 run <nchildren> [op,…]` → `ok [call,…] [fut,…] [returncode|~ per child] [waiting pid,…] queued`
         op = [exit,c,st] | [reg,c,cb|wait_raise|wait_noraise] | [sigchld] | [drain]
-   `C42 spec <nchildren> [op,…]` → `ok [[code,…] per child] [[mode-outcome…]]`
+   `C42 spec <nchildren> [op,…]` → `ok [[code,…] per child] [[mode-outcome…]] [delivered per child]`
    `C42 decode <st>` → `ok code|~ speccode|~` -/
 import TornadoModel.Base.Wire
 import TornadoModel.C42.Spec
@@ -48,7 +48,9 @@ def handle (toks : List String) : String :=
       | some n, some ops =>
         ok [.list ((List.range n).map fun c => .list ((Spec.expect c ops).map fun i => V.int i)),
             .list ((List.range n).map fun c => .list ((Spec.regsOf c ops).map fun m =>
-              .list ((Spec.expect c ops).map fun code => V.ofOpt encFut (Spec.futOutcome m code))))]
+              .list ((Spec.expect c ops).map fun code => V.ofOpt encFut (Spec.futOutcome m code)))),
+            .list ((List.range n).map fun c =>
+              V.ofBool ((Spec.firstExit c ops).isNone || Spec.sigAfter c ops))]
       | _, _ => err "bad-arg"
     | [.atom "decode", st] =>
       match st.nat? with
